@@ -96,6 +96,12 @@ package edns
 //@   # option never reaches the client
 //@   assert at store dns.OPT.Option#1: value == lastret("middleware/edns.onlyEDE") && target != w.opt
 //@   assert at call middleware/edns.onlyEDE#1: arg0 == opt.Option && opt != w.opt
+//@   # C11 ("exactly one reply"): EVERY transport has a size limit the reply is measured against before it is handed on -
+//@   # the client's advertised size on UDP, the two-octet frame length (65535) on everything else - so a reply composed
+//@   # past the frame limit is cut down to a TC=1 reply instead of being refused by the transport with nothing sent
+//@   assert at call middleware/edns.udpOverflow#1: arg0 == m && (arg1 == w.size || arg1 == 65535) && calls("middleware/edns.udpOverflow") == 0
+//@   possible at call middleware/edns.udpOverflow#1: arg1 == 65535 && w.size != 65535
+//@   possible at call middleware/edns.udpOverflow#1: arg1 == w.size && arg1 != 65535
 //@
 //@ # ---- C19: a configuration ecs.Build rejects yields NO policy (forwarding off), never a permissive one
 //@ func buildECSPolicy
